@@ -109,6 +109,12 @@ chk('C17', 'exploration', 'exhaustive enumeration of the operator x monitor-kind
     'the support matrix is the one stated in the property; returned values are not judged here',
     'DESIGN.md section 5 C17')
 
+chk('C14', 'exploration', 'exhaustive enumeration of token strings and single-token edits, real parse() vs an Earley recogniser of the grammar',
+    'all token strings up to length 4 (thorough 5) over a 28-token alphabet with and without an assertion head, every single-token deletion/insertion/substitution of a corpus covering every production, every insertion of a non-token character, all small bound pairs; '
+    'an accepted text must be derivable (Earley over the transcribed productions), have no skipped character, satisfy 0<=begin<=end and declared bound constants, and survive a first evaluation; every other text must raise RTAMTException within the time limit',
+    'one-directional oracle as in the statement; grammar transcription bound to the .g4 files by a self-check; termination up to 5 s',
+    'DESIGN.md section 5 C14')
+
 def main():
     props = [json.loads(l) for l in open(os.path.join(ROOT, 'properties.jsonl'))]
     checks = []
